@@ -145,10 +145,12 @@ class C18(Check):
     ASSUMPTIONS = ['strings contain no newline characters; separator does not contain the quote or escape character (domain of the property)',
                    'floats are finite and compared with == plus sign']
     ANCHORS = ['rxsci/container/csv.py', 'rxsci/io/file.py', 'rxsci/framing/line.py']
-    REQUIRED_TAGS = ['newline=CRLF', 'loader-built-before-the-dump', 'target-exists-empty'] + FILE_NAME_TAGS + ['stream', 'file', 'enc=None', 'enc=utf-8', 'multi-chunk-file', 'cols=1', 'cols=8',
+    REQUIRED_TAGS = ['the-default-parser-of-the-library', 'newline=CRLF', 'loader-built-before-the-dump', 'target-exists-empty'] + FILE_NAME_TAGS + ['stream', 'file', 'enc=None', 'enc=utf-8', 'multi-chunk-file', 'cols=1', 'cols=8',
                      'skind=adversarial', 'skind=huge', 'skind=control', 'fkind=bits', 'sep=,', 'sep=;', 'sep=|', 'sep=tab', 'sep=multi', 'pushed-source', 'multibyte-char-across-a-64KiB-boundary', 'rows-not-retained',
                      'schema=names', 'schema=typed_namedtuple', 'schema=header']
     REQUIRED_OBSERVED = ['fields_compared', 'rows_needing_quote_merge']
+
+    _parsers = {}
 
     def __init__(self):
         self.tmp = None
@@ -225,7 +227,15 @@ class C18(Check):
         else:
             dtype = [(n, TYPES[t]) for n, t in zip(names, cols)]
         out.tags.append('schema=' + schema)
-        parser = call(csv.create_line_parser, [('dtype', dtype), ('none_values', []), ('separator', sep), ('escapechar', esc)])
+        # parser objects are built once per configuration and serve every later table of that configuration (a parser kept around by
+        # the application): a header-derived parser - and the library's own default parser - meets tables with DIFFERENT headers
+        pkey = ('header', sep, esc) if schema == 'header' else (schema, sep, esc, tuple(cols), tuple(names))
+        if pkey not in self._parsers:
+            self._parsers[pkey] = call(csv.create_line_parser, [('dtype', dtype), ('none_values', []), ('separator', sep), ('escapechar', esc)])
+        parser = self._parsers[pkey]
+        use_default = schema == 'header' and sep == ',' and esc == '\\' and case['rows']['rseed'] % 2 == 0
+        if use_default:
+            out.tags.append('the-default-parser-of-the-library')
         if out_tag_fresh:
             out.tags.append('rows-not-retained')
         out.tags += [case['mode'], 'cols=%d' % len(cols), 'skind=' + case['rows']['skind'], 'fkind=' + case['rows']['fkind'],
@@ -240,7 +250,7 @@ class C18(Check):
 
         if case['mode'] == 'stream':
             got = subscribe2(rx.from_(src).pipe(call(csv.dump, [('header', True), ('separator', sep), ('escapechar', esc)]), line.unframe(),
-                                                call(csv.load, [('parse_line', parser)])), out, 'dump | unframe | load', same=lambda x, y: repr(x) == repr(y))
+                                                csv.load() if use_default else call(csv.load, [('parse_line', parser)])), out, 'dump | unframe | load', same=lambda x, y: repr(x) == repr(y))
         else:
             enc = case['encoding']
             out.tags.append('enc=%s' % enc)
@@ -287,7 +297,7 @@ class C18(Check):
                     raw = fb.read()
                 if any((raw[b] & 0xC0) == 0x80 for b in range(65536, len(raw), 65536)):
                     out.tags.append('multibyte-char-across-a-64KiB-boundary')
-            got = subscribe2(early if early is not None else call(csv.load_from_file, [('filename', path), ('parse_line', parser), ('skip', 0), ('encoding', enc)]), out, 'load_from_file', same=lambda x, y: repr(x) == repr(y))
+            got = subscribe2(early if early is not None else csv.load_from_file(path, encoding=enc) if use_default else call(csv.load_from_file, [('filename', path), ('parse_line', parser), ('skip', 0), ('encoding', enc)]), out, 'load_from_file', same=lambda x, y: repr(x) == repr(y))
 
         def mech_of(i=None, j=None):
             """mechanism classifier (only used if a finding is recorded as known instead of fixed)"""
